@@ -41,9 +41,9 @@ type seg struct {
 }
 
 var rawNames = []string{"a", "b", "a/b", "a b", "x$y", "req.time", "\xc3\xa9.x", "g\tg", "c,d"}
-var tagPool = []string{"k:v", "env:prod", "host:h1", "host:h2", "t", "hostx:1", "host:", "u:1", "w", "z:9", "Host:H"}
-var invalidLines = []string{"bad", "a:1|x", ":1|c", "a:b|c", "a:1|c|@x", "_e{1,2}:a|b", "a:1", "$$:1|c", "a:NaN|g", "a:1|c|@0", "_x", "a:1|msx", "|", "a|1:c"}
-var pieces = []string{"a:1|c|", "a:1|g||#x", "x:1|c|#", "a:1|c|#,,", "_e{1,1}:a|b|", "_e{0,0}:|", "a:1e400|g", "a:0x1p3|ms", "  :1|c", "a:1|s|@2", "\xff:1|c", "a:1|c|@1e-400", "_e{1,1}:a|b|p:x", "a:1|h|#host:"}
+var tagPool = []string{"k:v", "env:prod", "host:h1", "host:h2", "t", "hostx:1", "host:", "u:1", "w", "z:9", "Host:H", "cr\r", "q:1\r"}
+var invalidLines = []string{"bad", "a:1|x", ":1|c", "a:b|c", "a:1|c|@x", "_e{1,2}:a|b", "a:1", "$$:1|c", "a:NaN|g", "a:1|c|@0", "_x", "a:1|msx", "|", "a|1:c", "a:1|c\r", "a:1|g|@0.5\r"}
+var pieces = []string{"a:1|c|", "a:1|g||#x", "x:1|c|#", "a:1|c|#,,", "_e{1,1}:a|b|", "_e{0,0}:|", "a:1e400|g", "a:0x1p3|ms", "  :1|c", "a:1|s|@2", "\xff:1|c", "a:1|c|@1e-400", "_e{1,1}:a|b|p:x", "a:1|h|#host:", "_e{1,2}:t|x\r", "u:m\r|s", "\r"}
 
 func knownLine(t *rapid.T, ns string, ignoreHost bool, ip string, ts int64) seg {
 	raw := rapid.SampledFrom(rawNames).Draw(t, "name")
